@@ -511,6 +511,7 @@ type walker struct {
 	bytes     bool
 	hdrLen    int64
 	hdr       map[int64]*Prim // header prims by byte offset (Put… into the made part of the buffer)
+	hdrSeg    map[int64]hdrSegment // a run of the made part filled by a loop through a cursor slice
 	hdrBroken string
 }
 
@@ -523,7 +524,7 @@ func (x *Extractor) Grammar(fi *core.FuncInfo, stream types.Object) []Node {
 	c := x.Ctx(fi)
 	w := &walker{x: x, c: c, stream: stream, out: x.IsOut(stream.Type())}
 	if isByteSliceType(stream.Type()) {
-		w.bytes, w.out, w.hdr = true, true, map[int64]*Prim{}
+		w.bytes, w.out, w.hdr, w.hdrSeg = true, true, map[int64]*Prim{}, map[int64]hdrSegment{}
 	}
 	var g []Node
 	if fi.Decl.Body != nil {
@@ -1442,6 +1443,22 @@ func (x *Extractor) LocalRoots(fi *core.FuncInfo) (outs, ins []types.Object) {
 func (x *Extractor) assemblesWithBinary(fi *core.FuncInfo, root types.Object) bool {
 	info := fi.Pkg.TypesInfo
 	uses, foreign := 0, 0
+	// cursor slices of the root introduced in a for clause (for i, cell := 0, buf; …; cell = cell[W:])
+	cursors := map[types.Object]bool{}
+	ast.Inspect(fi.Decl.Body, func(n ast.Node) bool {
+		if f, ok := n.(*ast.ForStmt); ok {
+			if init, ok := f.Init.(*ast.AssignStmt); ok && init.Tok == token.DEFINE && len(init.Lhs) == len(init.Rhs) {
+				for i, r := range init.Rhs {
+					if rid, ok := ast.Unparen(r).(*ast.Ident); ok && info.ObjectOf(rid) == root {
+						if lid, ok := init.Lhs[i].(*ast.Ident); ok {
+							cursors[info.ObjectOf(lid)] = true
+						}
+					}
+				}
+			}
+		}
+		return true
+	})
 	ast.Inspect(fi.Decl.Body, func(n ast.Node) bool {
 		call, ok := n.(*ast.CallExpr)
 		if !ok || len(call.Args) < 2 {
@@ -1459,7 +1476,7 @@ func (x *Extractor) assemblesWithBinary(fi *core.FuncInfo, root types.Object) bo
 		if sl, ok := dst.(*ast.SliceExpr); ok {
 			dst = ast.Unparen(sl.X)
 		}
-		if id, ok := dst.(*ast.Ident); ok && info.ObjectOf(id) == root {
+		if id, ok := dst.(*ast.Ident); ok && (info.ObjectOf(id) == root || cursors[info.ObjectOf(id)]) {
 			uses++
 		} else {
 			foreign++
@@ -2750,12 +2767,170 @@ func (w *walker) byteStmt(s ast.Stmt) ([]Node, bool) {
 			}
 		}
 		return nil, false
+	case *ast.ForStmt:
+		if ns, ok := w.cursorLoop(v); ok {
+			return ns, true
+		}
+		return nil, false
 	case *ast.DeclStmt:
 		return nil, false
 	case *ast.ReturnStmt:
 		return []Node{&Ret{Pos: v.Pos()}}, true
 	}
 	return nil, false
+}
+
+// cursorOf: the for statement walks the made part of the root buffer through a cursor slice:
+//
+//	for i, cell := 0, buf; i < N; i, cell = i+1, cell[W:] { … Put…(cell[a:b], v) … }
+//
+// returns the cursor variable, the counter, N and W.
+func (w *walker) cursorOf(f *ast.ForStmt) (cur, cnt types.Object, n, width int64, ok bool) {
+	info := w.c.Info
+	init, ok1 := f.Init.(*ast.AssignStmt)
+	post, ok2 := f.Post.(*ast.AssignStmt)
+	cond, ok3 := f.Cond.(*ast.BinaryExpr)
+	if !ok1 || !ok2 || !ok3 || init.Tok != token.DEFINE || len(init.Lhs) != 2 || len(init.Rhs) != 2 || len(post.Lhs) != 2 || len(post.Rhs) != 2 || cond.Op != token.LSS {
+		return
+	}
+	cint := func(e ast.Expr) (int64, bool) {
+		tv, ok := info.Types[e]
+		if !ok || tv.Value == nil {
+			return 0, false
+		}
+		return constant.Int64Val(constant.ToInt(tv.Value))
+	}
+	for i := 0; i < 2; i++ {
+		id, isId := init.Lhs[i].(*ast.Ident)
+		if !isId {
+			return
+		}
+		o := info.ObjectOf(id)
+		if w.isRootIdent(init.Rhs[i]) {
+			cur = o
+		} else if k, isC := cint(init.Rhs[i]); isC && k == 0 {
+			cnt = o
+		}
+	}
+	if cur == nil || cnt == nil {
+		return
+	}
+	if cid, isId := ast.Unparen(cond.X).(*ast.Ident); !isId || info.ObjectOf(cid) != cnt {
+		return
+	}
+	var isC bool
+	if n, isC = cint(cond.Y); !isC || n <= 0 || n > 1<<16 {
+		return
+	}
+	stepOK, advOK := false, false
+	for i := 0; i < 2; i++ {
+		id, isId := post.Lhs[i].(*ast.Ident)
+		if !isId {
+			return
+		}
+		switch info.ObjectOf(id) {
+		case cnt:
+			if be, isB := ast.Unparen(post.Rhs[i]).(*ast.BinaryExpr); isB && be.Op == token.ADD {
+				if xid, isX := ast.Unparen(be.X).(*ast.Ident); isX && info.ObjectOf(xid) == cnt {
+					if k, isK := cint(be.Y); isK && k == 1 {
+						stepOK = true
+					}
+				}
+			}
+		case cur:
+			if sl, isS := ast.Unparen(post.Rhs[i]).(*ast.SliceExpr); isS && sl.High == nil && sl.Low != nil {
+				if xid, isX := ast.Unparen(sl.X).(*ast.Ident); isX && info.ObjectOf(xid) == cur {
+					if k, isK := cint(sl.Low); isK && k > 0 {
+						width, advOK = k, true
+					}
+				}
+			}
+		}
+	}
+	ok = stepOK && advOK
+	return
+}
+
+// cursorLoop: N iterations, each laying W bytes out through the cursor: a counted loop over the prims of
+// one cell (in offset order, covering the cell exactly), standing for N*W bytes of the made part.
+func (w *walker) cursorLoop(f *ast.ForStmt) ([]Node, bool) {
+	cur, cnt, n, width, ok := w.cursorOf(f)
+	if !ok {
+		return nil, false
+	}
+	info := w.c.Info
+	cell := map[int64]*Prim{}
+	bad := ""
+	for _, st := range f.Body.List {
+		es, isE := st.(*ast.ExprStmt)
+		if !isE {
+			bad = "a statement other than a Put… into the cursor"
+			break
+		}
+		call, isC := ast.Unparen(es.X).(*ast.CallExpr)
+		if !isC || len(call.Args) != 2 {
+			bad = "a statement other than a Put… into the cursor"
+			break
+		}
+		nm := w.binaryBE(call)
+		kind := beKinds[strings.TrimPrefix(nm, "Put")]
+		if !strings.HasPrefix(nm, "Put") || kind == "" {
+			bad = "a statement other than a Put… into the cursor"
+			break
+		}
+		dst := ast.Unparen(call.Args[0])
+		off := int64(0)
+		if sl, isS := dst.(*ast.SliceExpr); isS {
+			dst = ast.Unparen(sl.X)
+			if sl.Low != nil {
+				tv, okc := info.Types[sl.Low]
+				if !okc || tv.Value == nil {
+					bad = "Put at a non-constant offset of the cursor"
+					break
+				}
+				off, _ = constant.Int64Val(constant.ToInt(tv.Value))
+			}
+		}
+		if id, isId := dst.(*ast.Ident); !isId || info.ObjectOf(id) != cur {
+			bad = "Put into something other than the cursor"
+			break
+		}
+		cell[off] = w.bytePrim(call, kind, call.Args[1])
+	}
+	_ = cnt
+	var body []Node
+	at := int64(0)
+	for bad == "" && at < width {
+		p, okp := cell[at]
+		if !okp {
+			bad = fmt.Sprintf("byte %d of a cell is never written", at)
+			break
+		}
+		body = append(body, p)
+		at += kindWidth[p.Kind]
+	}
+	if bad == "" && at != width {
+		bad = "a cell is not covered exactly"
+	}
+	if bad != "" {
+		return []Node{&Unknown{Pos: f.Pos(), Reason: "cursor loop over the assembled buffer: " + bad}}, true
+	}
+	cond := f.Cond.(*ast.BinaryExpr)
+	lp := &Loop{Pos: f.Pos(), Stmt: f, Body: body, Bound: cond.Y, Fn: w.c}
+	// the run of the made part this loop fills starts where the header prims so far end
+	start := int64(0)
+	for off, p := range w.hdr {
+		if e := off + kindWidth[p.Kind]; e > start {
+			start = e
+		}
+	}
+	for off, sg := range w.hdrSeg {
+		if e := off + sg.n; e > start {
+			start = e
+		}
+	}
+	w.hdrSeg[start] = hdrSegment{node: lp, n: n * width}
+	return nil, true
 }
 
 func (w *walker) setHdr(off int64, p *Prim, pos token.Pos) {
@@ -2767,15 +2942,25 @@ func (w *walker) setHdr(off int64, p *Prim, pos token.Pos) {
 
 var kindWidth = map[string]int64{"Byte": 1, "Short": 2, "Int": 4, "Long": 8}
 
+type hdrSegment struct {
+	node Node
+	n    int64
+}
+
 // withHeader puts the prims of the made part of the buffer, in offset order, in front of what was
 // appended; the made part must be covered exactly.
 func (w *walker) withHeader(g []Node, fi *core.FuncInfo) []Node {
-	if w.hdrLen == 0 && len(w.hdr) == 0 {
+	if w.hdrLen == 0 && len(w.hdr) == 0 && len(w.hdrSeg) == 0 {
 		return g
 	}
 	var head []Node
 	at := int64(0)
 	for at < w.hdrLen {
+		if sg, isSeg := w.hdrSeg[at]; isSeg && sg.n > 0 {
+			head = append(head, sg.node)
+			at += sg.n
+			continue
+		}
 		p, ok := w.hdr[at]
 		if !ok {
 			w.hdrBroken = fmt.Sprintf("byte %d of the made part is never written", at)
